@@ -1,8 +1,483 @@
-//! C05 — not built yet.
+//! C05 — JSON semi-index independent of engine (DESIGN §4 C05).
+//!
+//! Differential: the statement names the routes. Reference = the byte-at-a-time state
+//! machines `standard::build_semi_index_scalar` / `simple::build_semi_index`; compared
+//! routes = PFSM tables, SSE2, AVX2 (when the CPU has it), the runtime dispatcher, and the
+//! library constructors `JsonIndex::build` / `SimpleJsonIndex::build`.
+//! `(ib, bp, state)` are compared exactly as the in-repo tests compare them
+//! (`tests/simd_level_tests.rs`: `Vec<u64>` equality of `ib` and `bp`, equality of `state`).
 use crate::engine::*;
+use crate::gen::json::{GenOpts, KeyPalette, StrPalette};
+use crate::gen::jsonmut;
+use serde_json::{json, Value};
+use succinctly::json::{simd, simple, standard, JsonIndex, SimpleJsonIndex};
 
-pub const RULE: &str = "not built";
+pub const RULE: &str = "bytes 0..4096 (64 KiB thorough): G-json texts (all palettes, random whitespace/escape forms), 1-3 near-valid edits of them, scanner token soups (structurals, quotes, backslash runs, value chars, range-boundary bytes @ [ ` { / : * DEL and their high-bit twins), raw bytes, and chunk-boundary probes (a string / escape run / value / structural placed so its critical byte lands on offset B-1, B, B+1 for B a multiple of 16); every body is indexed at an alignment sweep of 0..63 prepended spaces (all 64 when len<=768, 8 sampled otherwise). Non-trivial: len>=32 and the scanner state entering some offset that is a multiple of 16 is InString, InEscape or InValue (harness state tracer, classification only); distinct by hash(body).";
+
+fn has_avx2() -> bool {
+    std::arch::is_x86_feature_detected!("avx2")
+}
+
+// ---------------------------------------------------------------- classification tracer
+// Harness-side state tracer written from the module docs of standard.rs; used ONLY to
+// classify cases (which state enters a chunk boundary). Not an oracle.
+#[derive(Clone, Copy, PartialEq, Debug)]
+enum TS {
+    Json,
+    Str,
+    Esc,
+    Val,
+}
+
+fn trace_boundaries(b: &[u8]) -> [[bool; 4]; 3] {
+    // [modulus 16/32/64][state] = some boundary offset (multiple of modulus, > 0) is entered in that state
+    let mut seen = [[false; 4]; 3];
+    let mut s = TS::Json;
+    for (i, &c) in b.iter().enumerate() {
+        if i > 0 && i % 16 == 0 {
+            let si = s as usize;
+            seen[0][si] = true;
+            if i % 32 == 0 {
+                seen[1][si] = true;
+            }
+            if i % 64 == 0 {
+                seen[2][si] = true;
+            }
+        }
+        s = match s {
+            TS::Json | TS::Val => {
+                if matches!(c, b'{' | b'}' | b'[' | b']' | b',' | b':') {
+                    TS::Json
+                } else if c.is_ascii_alphanumeric() || matches!(c, b'.' | b'-' | b'+') {
+                    TS::Val
+                } else if c == b'"' && s == TS::Json {
+                    TS::Str
+                } else {
+                    TS::Json
+                }
+            }
+            TS::Str => {
+                if c == b'"' {
+                    TS::Json
+                } else if c == b'\\' {
+                    TS::Esc
+                } else {
+                    TS::Str
+                }
+            }
+            TS::Esc => TS::Str,
+        };
+    }
+    seen
+}
+
+// ---------------------------------------------------------------- comparison
+
+fn first_diff(a: &[u64], b: &[u64]) -> Value {
+    if a.len() != b.len() {
+        return json!({"len_expected": a.len(), "len_actual": b.len()});
+    }
+    for (i, (x, y)) in a.iter().zip(b.iter()).enumerate() {
+        if x != y {
+            return json!({"word": i, "expected": format!("{:016x}", x), "actual": format!("{:016x}", y), "first_bit": i * 64 + (x ^ y).trailing_zeros() as usize});
+        }
+    }
+    Value::Null
+}
+
+fn info(x: &[u8], k: usize, body_len: usize) -> Value {
+    json!({"prefix_spaces": k, "body_len": body_len, "len": x.len(), "input_hex": hex(&x[..x.len().min(4096)]), "input": show_bytes(x)})
+}
+
+fn bit(words: &[u64], i: usize) -> bool {
+    words.get(i / 64).map_or(false, |w| (w >> (i % 64)) & 1 == 1)
+}
+
+/// Run every engine on `x`; Err on the first disagreement with the reference.
+pub fn compare_all(x: &[u8], k: usize, body_len: usize, st: &mut Stats) -> Result<u64, Fail> {
+    let avx2 = has_avx2();
+    // ---- standard cursor
+    let r = standard::build_semi_index_scalar(x);
+    let mut digest = hash_words(&r.ib) ^ hash_words(&r.bp).rotate_left(7) ^ (r.state as u64);
+    {
+        let mut routes: Vec<(&str, standard::SemiIndex)> = vec![
+            ("pfsm", standard::build_semi_index(x)),
+            ("sse2", simd::x86::build_semi_index_standard(x)),
+        ];
+        if avx2 {
+            routes.push(("avx2", simd::avx2::build_semi_index_standard(x)));
+        }
+        routes.push(("dispatch", simd::build_semi_index_standard(x)));
+        for (name, s) in &routes {
+            if s.ib != r.ib {
+                fail!(format!("C05/standard/{}/ib", name), {"diff": first_diff(&r.ib, &s.ib), "case": info(x, k, body_len)});
+            }
+            if s.bp != r.bp {
+                fail!(format!("C05/standard/{}/bp", name), {"diff": first_diff(&r.bp, &s.bp), "case": info(x, k, body_len)});
+            }
+            if s.state != r.state {
+                fail!(format!("C05/standard/{}/state", name), {"expected": format!("{:?}", r.state), "actual": format!("{:?}", s.state), "case": info(x, k, body_len)});
+            }
+        }
+        st.evals(routes.len() as u64);
+        // library constructor: the index it holds is the reference index
+        let idx = JsonIndex::build(x);
+        if idx.ib() != &r.ib[..] {
+            fail!("C05/standard/JsonIndex::build/ib", {"diff": first_diff(&r.ib, idx.ib()), "case": info(x, k, body_len)});
+        }
+        check_eq!("C05/standard/JsonIndex::build/ib_len", x.len(), idx.ib_len(), {"case": info(x, k, body_len)});
+        // bp: the library keeps `bp().len()` bits; those bits are the reference's bits.
+        // `JsonIndex::build` estimates the length as 2 x (number of 1 bits), which is exact
+        // for balanced input; on unbalanced input (more opens than closes) the estimate can
+        // exceed the words that exist, and `BalancedParens::new` then masks the last word
+        // with `len % 64` — outside what C05 states, so the bits are only compared when the
+        // estimated length fits the storage.
+        let n = idx.bp().len();
+        if n <= r.bp.len() * 64 {
+            let w = idx.bp().words();
+            for i in 0..n {
+                if bit(w, i) != bit(&r.bp, i) {
+                    fail!("C05/standard/JsonIndex::build/bp", {"bit": i, "bp_len": idx.bp().len(), "case": info(x, k, body_len)});
+                }
+            }
+        } else if k == 0 {
+            st.class("JsonIndex-bp-len-estimate-exceeds-storage(bp-bits-not-compared)");
+        }
+        st.evals(1);
+    }
+    // ---- simple cursor
+    let r = simple::build_semi_index(x);
+    digest ^= hash_words(&r.ib).rotate_left(13) ^ hash_words(&r.bp).rotate_left(29) ^ ((r.state as u64) << 8);
+    {
+        let mut routes: Vec<(&str, simple::SemiIndex)> = vec![
+            ("sse2", simd::x86::build_semi_index_simple(x)),
+        ];
+        if avx2 {
+            routes.push(("avx2", simd::avx2::build_semi_index_simple(x)));
+        }
+        routes.push(("dispatch", simd::build_semi_index_simple(x)));
+        for (name, s) in &routes {
+            if s.ib != r.ib {
+                fail!(format!("C05/simple/{}/ib", name), {"diff": first_diff(&r.ib, &s.ib), "case": info(x, k, body_len)});
+            }
+            if s.bp != r.bp {
+                fail!(format!("C05/simple/{}/bp", name), {"diff": first_diff(&r.bp, &s.bp), "case": info(x, k, body_len)});
+            }
+            if s.state != r.state {
+                fail!(format!("C05/simple/{}/state", name), {"expected": format!("{:?}", r.state), "actual": format!("{:?}", s.state), "case": info(x, k, body_len)});
+            }
+        }
+        st.evals(routes.len() as u64);
+        let idx = SimpleJsonIndex::build(x);
+        if idx.ib() != &r.ib[..] {
+            fail!("C05/simple/SimpleJsonIndex::build/ib", {"diff": first_diff(&r.ib, idx.ib()), "case": info(x, k, body_len)});
+        }
+        check_eq!("C05/simple/SimpleJsonIndex::build/ib_len", x.len(), idx.ib_len(), {"case": info(x, k, body_len)});
+        // simple cursor: every structural byte writes exactly two bits, so 2 x popcount(ib) is exact
+        let n = idx.bp().len();
+        check_eq!("C05/simple/SimpleJsonIndex::build/bp_len", 2 * r.ib.iter().map(|w| w.count_ones() as usize).sum::<usize>(), n, {"case": info(x, k, body_len)});
+        let w = idx.bp().words();
+        for i in 0..n {
+            if bit(w, i) != bit(&r.bp, i) {
+                fail!("C05/simple/SimpleJsonIndex::build/bp", {"bit": i, "bp_len": idx.bp().len(), "case": info(x, k, body_len)});
+            }
+        }
+        st.evals(1);
+    }
+    Ok(digest)
+}
+
+// ---------------------------------------------------------------- generation
+
+pub struct Case {
+    pub kind: &'static str,
+    pub body: Vec<u8>,
+    pub sweep: Vec<usize>,
+}
+
+/// A construct whose critical byte is placed at B-1 / B / B+1 for a chunk boundary B.
+fn boundary_probe(u: &mut Src, max_len: usize) -> Vec<u8> {
+    let max_b = (max_len / 16).max(2).min(40);
+    let b = 16 * u.range(1, max_b);
+    let delta = u.below(5) as isize - 2; // critical byte at B-2..B+2
+    let construct: Vec<u8> = match u.below(12) {
+        0 => {
+            // string with an escaped quote: critical = the backslash
+            let mut v = b"\"ab".to_vec();
+            v.extend_from_slice(b"\\\"cd\"");
+            v
+        }
+        1 => {
+            // run of backslashes inside a string, odd or even
+            let n = u.range(1, 9);
+            let mut v = vec![b'"'];
+            v.extend(std::iter::repeat(b'\\').take(n));
+            v.extend_from_slice(b"\"x\"");
+            v
+        }
+        2 => b"12345.5e-7".to_vec(),
+        3 => b"true".to_vec(),
+        4 => b"\"k\":1".to_vec(),
+        5 => b"]}".to_vec(),
+        6 => b"\"\"".to_vec(),
+        7 => {
+            // value chars next to range-boundary bytes
+            let mut v = vec![];
+            for _ in 0..u.range(2, 8) {
+                v.push(*u.pick(jsonmut::BOUNDARY_BYTES));
+            }
+            v
+        }
+        8 => b"\\\"".to_vec(), // escape outside a string (InJson ignores the backslash)
+        9 => {
+            let mut v = b"\"".to_vec();
+            v.extend_from_slice("é😀\u{2028}".as_bytes());
+            v.extend_from_slice(b"\\u00e9\"");
+            v
+        }
+        10 => b"[{\"a\":[]}]".to_vec(),
+        _ => b"-0".to_vec(),
+    };
+    let crit = u.below(construct.len().max(1));
+    // position of construct start so that construct[crit] sits at b + delta
+    let start = (b as isize + delta - crit as isize).max(0) as usize;
+    let mut v = Vec::with_capacity(start + construct.len() + 40);
+    // filler before: whitespace, a long string, a long value, or structurals
+    match u.below(5) {
+        0 => v.resize(start, b' '),
+        1 => {
+            // an open string running up to the construct (construct bytes are then string content)
+            if start > 0 {
+                v.push(b'"');
+                v.resize(start, b'x');
+            }
+        }
+        2 => v.resize(start, b'7'),
+        3 => {
+            for i in 0..start {
+                v.push(b"[,]"[i % 3]);
+            }
+        }
+        _ => {
+            // closed string then spaces
+            if start >= 2 {
+                v.push(b'"');
+                v.resize(start - 1, b'y');
+                v.push(b'"');
+            } else {
+                v.resize(start, b' ');
+            }
+        }
+    }
+    v.extend_from_slice(&construct);
+    // tail
+    match u.below(4) {
+        0 => {}
+        1 => v.extend_from_slice(b"\"tail\",1]"),
+        2 => {
+            let n = u.range(0, 40);
+            v.extend(std::iter::repeat(*u.pick(b" x\\\"1")).take(n));
+        }
+        _ => v.extend_from_slice(&jsonmut::token_soup(u, 48, 1)),
+    }
+    v.truncate(max_len);
+    v
+}
+
+pub fn gen_case(u: &mut Src, max_len: usize) -> Case {
+    let (kind, mut body): (&'static str, Vec<u8>) = match u.weighted(&[4, 4, 5, 2, 4]) {
+        0 | 1 => {
+            let big = u.ratio(1, 5);
+            let o = GenOpts {
+                max_depth: u.range(1, 8),
+                max_nodes: if big { u.range(60, 600) } else { u.range(1, 60) },
+                dup_keys: true,
+                strings: *u.pick(&[StrPalette::Full, StrPalette::Full, StrPalette::Ascii, StrPalette::AsciiPlain]),
+                keys: *u.pick(&[KeyPalette::AsStrings, KeyPalette::Hostile, KeyPalette::Ident]),
+                numbers: 2,
+                max_str_len: *u.pick(&[4, 24, 24, 70]),
+            };
+            let (_, r) = jsonmut::gen_doc(u, &o);
+            let mut t = r.text.clone();
+            if u.ratio(1, 2) {
+                let o2 = GenOpts { max_nodes: 12, ..o };
+                let other = if u.ratio(1, 3) { Some(jsonmut::gen_doc(u, &o2).1.text) } else { None };
+                let n = u.range(1, 3);
+                for _ in 0..n {
+                    jsonmut::mutate_once(u, &mut t, Some(&r), other.as_deref());
+                }
+                ("mutated", t)
+            } else {
+                ("valid", t)
+            }
+        }
+        2 => ("token-soup", jsonmut::token_soup(u, max_len, 1)),
+        3 => ("raw", jsonmut::raw_bytes(u, max_len)),
+        _ => ("boundary-probe", boundary_probe(u, max_len.min(1024))),
+    };
+    body.truncate(max_len);
+    let sweep: Vec<usize> = if body.len() <= 768 {
+        (0..64).collect()
+    } else {
+        let mut v = vec![0usize];
+        for _ in 0..7 {
+            v.push(u.range(1, 63));
+        }
+        v
+    };
+    Case { kind, body, sweep }
+}
+
+fn classify(c: &Case, st: &mut Stats) {
+    let b = &c.body;
+    st.class(&format!("kind-{}", c.kind));
+    let seen = trace_boundaries(b);
+    let names = ["InJson", "InString", "InEscape", "InValue"];
+    for (mi, m) in [16, 32, 64].iter().enumerate() {
+        for s in 1..4 {
+            st.class_if(seen[mi][s], &format!("carry-{}@{}", names[s], m));
+        }
+    }
+    let nt = b.len() >= 32 && (1..4).any(|s| seen[0][s]);
+    st.class_if(nt, "nontrivial");
+    if nt {
+        st.nontrivial(hash_bytes(b));
+    }
+    st.class_if(b.iter().any(|&x| x >= 0x80), "has-byte>=0x80");
+    st.class_if(b.contains(&0), "has-NUL");
+    st.class_if(b.windows(2).any(|w| w == b"\\\\"), "backslash-run>=2");
+    st.class_if(b.len() % 32 != 0, "len%32!=0");
+    st.class_if(b.len() % 16 == 0 && !b.is_empty(), "len%16==0");
+    st.class_if(b.is_empty(), "empty");
+    st.class_if(b.len() > 768, "len>768(sampled-sweep)");
+    st.class_if(b.len() >= 4096, "len>=4096");
+    st.size(b.len());
+    st.sample(c.kind, || json!({"kind": c.kind, "len": b.len(), "text": show_bytes(&b[..b.len().min(160)])}));
+}
+
+fn check_case(c: &Case, st: &mut Stats) -> Result<(), Fail> {
+    let mut d = 0u64;
+    for &k in &c.sweep {
+        let x = jsonmut::with_prefix(k, &c.body);
+        d = d.wrapping_add(mix64(compare_all(&x, k, c.body.len(), st)? ^ k as u64));
+    }
+    st.digest(d);
+    Ok(())
+}
+
+fn replay_input(v: &Value) -> Option<Fail> {
+    let x = unhex(v["input"]["hex"].as_str().unwrap_or(""));
+    let k = v["input"]["prefix_spaces"].as_u64().unwrap_or(0) as usize;
+    let x = jsonmut::with_prefix(k, &x);
+    let mut st = Stats::default();
+    match catch(|| compare_all(&x, k, x.len() - k, &mut st)) {
+        Ok(Ok(_)) => None,
+        Ok(Err(f)) => Some(f),
+        Err((loc, msg)) => Some(Fail::new(format!("panic@{}", panic_sig(&loc)), json!({"panic": msg, "location": loc}))),
+    }
+}
 
 pub fn run(cx: &mut Ctx) {
-    cx.infra("check not built");
+    cx.assume("reference = succinctly::json::standard::build_semi_index_scalar / simple::build_semi_index (the statement's reference machines); C06/C07/C32 check them against span tables");
+    cx.assume("AVX2 entry points are called only when is_x86_feature_detected!(\"avx2\")");
+    cx.extra.insert("engines".into(), json!({"standard": ["scalar(ref)", "pfsm", "sse2", if has_avx2() { "avx2" } else { "avx2(absent)" }, "dispatch", "JsonIndex::build"], "simple": ["scalar(ref)", "sse2", if has_avx2() { "avx2" } else { "avx2(absent)" }, "dispatch", "SimpleJsonIndex::build"]}));
+    if !has_avx2() {
+        cx.note("host has no AVX2: the AVX2 routes were not exercised");
+    }
+    for (name, v) in cx.replays.clone() {
+        if v["kind"] == "input" {
+            let r = replay_input(&v);
+            cx.replay_outcome(&name, r);
+        }
+    }
+    let max_len = if cx.tier == Tier::Quick { 4096 } else { 65536 };
+    cx.check(
+        "engines-agree",
+        RULE,
+        Budget { quick: 60_000, thorough: 3_000_000, max_len: 6000 },
+        |u, st| {
+            // most cases stay <= 4 KiB even in thorough (the statement's range); 1 in 16 goes large
+            let ml = if max_len > 4096 && u.ratio(1, 16) { max_len } else { 4096 };
+            let c = gen_case(u, ml);
+            classify(&c, st);
+            st.describe(|| json!({"kind": c.kind, "body_hex": hex(&c.body[..c.body.len().min(8192)]), "body_len": c.body.len(), "sweep": c.sweep}));
+            check_case(&c, st)
+        },
+    );
+    for cl in [
+        "kind-valid",
+        "kind-mutated",
+        "kind-token-soup",
+        "kind-raw",
+        "kind-boundary-probe",
+        "carry-InString@16",
+        "carry-InEscape@16",
+        "carry-InValue@16",
+        "carry-InString@32",
+        "carry-InEscape@32",
+        "carry-InValue@32",
+        "carry-InEscape@64",
+        "has-byte>=0x80",
+        "backslash-run>=2",
+        "len>768(sampled-sweep)",
+    ] {
+        cx.require_class("engines-agree", cl, 20);
+    }
+
+    // Every byte value in every scanner state, at every position of a 64-byte window
+    // (complete family): context prefix puts the scanner in the state, the probe byte
+    // sits at offset p, followed by a fixed tail that makes the consequences visible.
+    cx.exhaustive(
+        "every-byte-every-state-every-offset",
+        "256 byte values x 4 entry states (InJson / InString / InEscape / InValue) x offsets 0..=65 x 3 tails; all engines vs reference",
+        true,
+        |shard, nshards, st| {
+            let tails: [&[u8]; 3] = [b"", b"a\"b\\\"c\",[1]}", b"\\\\\" :x"];
+            for v in 0..256usize {
+                if v % nshards != shard {
+                    continue;
+                }
+                for state in 0..4 {
+                    for p in 0..=65usize {
+                        for tail in tails {
+                            // context of length p that ends in `state`
+                            let mut x: Vec<u8> = Vec::with_capacity(p + 1 + tail.len());
+                            match state {
+                                0 => x.resize(p, b' '),
+                                1 => {
+                                    if p == 0 {
+                                        continue;
+                                    }
+                                    x.push(b'"');
+                                    x.resize(p, b's');
+                                }
+                                2 => {
+                                    if p < 2 {
+                                        continue;
+                                    }
+                                    x.push(b'"');
+                                    x.resize(p - 1, b's');
+                                    x.push(b'\\');
+                                }
+                                _ => {
+                                    if p == 0 {
+                                        continue;
+                                    }
+                                    x.resize(p, b'7');
+                                }
+                            }
+                            x.push(v as u8);
+                            x.extend_from_slice(tail);
+                            st.cases += 1;
+                            if p >= 31 {
+                                st.nontrivial(hash_bytes(&x));
+                            }
+                            compare_all(&x, 0, x.len(), st)?;
+                        }
+                    }
+                }
+            }
+            Ok(())
+        },
+    );
 }
